@@ -67,8 +67,8 @@ def showManiaCounts (c : ManiaCounts) : String := s!"{c.maxCombo}:{c.nObjects}:{
 def parseManiaObjs (s : String) : List ManiaObj :=
   (splitList s ";").map fun t =>
     match t.splitOn ":" with
-    | [c, a, b] => { isCircle := bool! c, incOne := nat! a, incGrad := nat! b }
-    | _ => { isCircle := true, incOne := 1, incGrad := 1 }
+    | [c, a] => { isCircle := bool! c, incOne := nat! a }
+    | _ => { isCircle := true, incOne := 1 }
 
 /-- `GRAD <mode> <objs> <sig> <ops>` -/
 def handleGrad (mode objs sig ops : String) : String :=
